@@ -131,7 +131,7 @@ pub fn op_strat(refusable: bool) -> BoxedStrategy<Op> {
         3 => (0u8..4, 0u8..3, any::<bool>()).prop_map(|(h, amt, keysend)| Op::Approve { h, amt, keysend }),
         1 => (ch(), 0u8..4).prop_map(|(ch, h)| Op::Fulfill { ch, h }),
         3 => (0u8..4).prop_map(|kind| Op::Onchain { kind }),
-        3 => (0u8..5).prop_map(|kind| Op::Allowlist { kind }),
+        4 => (0u8..10).prop_map(|kind| Op::Allowlist { kind }),
         4 => prop_oneof![6 => Just(0u8), 2 => Just(1u8), 2 => Just(2u8)].prop_map(|fault| Op::AddBlock { fault }),
         2 => prop_oneof![5 => Just(0u8), 2 => Just(1u8), 1 => Just(2u8)].prop_map(|fault| Op::RemoveBlock { fault }),
         2 => (0u8..6).prop_map(|dbid| Op::NewChannel { dbid }),
@@ -542,8 +542,14 @@ impl Machine {
             Op::Allowlist { kind } => {
                 let a1 = Address::p2wpkh(&CompressedPublicKey(PublicKey::from_secret_key(&secp, &SecretKey::from_slice(&[0x21; 32]).unwrap())), Network::Testnet);
                 let a2 = Address::p2wpkh(&CompressedPublicKey(PublicKey::from_secret_key(&secp, &SecretKey::from_slice(&[0x22; 32]).unwrap())), Network::Testnet);
-                let k = *kind % 5;
+                let k = *kind % 10;
                 let (res, _) = self.req("allowlist", move || match k {
+                    5 => node.add_allowlist(&[format!("address:{}", a1), format!("address:{}", a2)]),
+                    // multi-entry removals: whether an entry is present depends on the history
+                    6 => node.remove_allowlist(&[format!("address:{}", a1), format!("address:{}", a2)]),
+                    7 => node.remove_allowlist(&[format!("address:{}", a2), format!("address:{}", a1)]),
+                    8 => node.set_allowlist(&[format!("address:{}", a1)]),
+                    9 => node.add_allowlist(&[format!("address:{}", a2)]),
                     0 => node.add_allowlist(&[format!("address:{}", a1)]),
                     1 => node.add_allowlist(&[format!("address:{}", a2), "garbage-not-an-address".to_string()]),
                     2 => node.remove_allowlist(&[format!("address:{}", a1)]),
